@@ -12,6 +12,7 @@ from .C10 import Collector
 
 ID = "C09"
 PROPS_FILE = "Props/C09.v"
+PROPS_EXTRA = ["Props/C09e2e.v"]   # glue: pages of compiled / scaled recipes are page_valid (Proofs/GlueLinks.v)
 GEN_DEPS = ["GenUnits", "GenConsts"]
 ALLOWED_AXIOMS: List[str] = []
 THEOREMS: Dict[str, str] = {
@@ -22,6 +23,7 @@ THEOREMS: Dict[str, str] = {
     "C09_ex_prefix": "example",
     "C09_ex_page": "example",
     "C09_ex_hyps": "example",
+    "C09e2e_strictly_valid_page_valid": "full", "C09_compiled_page_valid": "full", "C09_source_page_valid": "full", "C09_compiled_links_resolve": "full", "C09_source_links_resolve": "full", "C09e2e_compiles": "example", "C09e2e_page_hyp": "example", "C09e2e_page_computed": "example", "C09e2e_f8_compiles": "example", "C09e2e_unique_refuted_from_source": "refuted",
 }
 TRUSTED = [
     "Coq 8.16.1 kernel (vm_compute for correspondence)",
